@@ -14,5 +14,5 @@ def plan(tier, seed):
 
 
 def required(tier, classes, records):
-    pats = [p for p in TOPO_REQUIRED if "guard" not in p[0]] + [("x-y derivative formulation", r"xyderiv"), ("tilted non-orthogonal cells, psi increasing outwards", r"nonorth\|.*\|s-.*\|tilted"), ("tilted non-orthogonal cells, psi decreasing outwards", r"nonorth\|.*\|s\+.*\|tilted")]
+    pats = [p for p in TOPO_REQUIRED if "guard" not in p[0]] + [("x-y derivative formulation, psi increasing outwards", r"\|s-.*xyderiv"), ("x-y derivative formulation, psi decreasing outwards", r"\|s\+.*xyderiv"), ("tilted non-orthogonal cells, psi increasing outwards", r"nonorth\|.*\|s-.*\|tilted"), ("tilted non-orthogonal cells, psi decreasing outwards", r"nonorth\|.*\|s\+.*\|tilted")]
     return need_classes(classes, pats)
